@@ -8,7 +8,7 @@ export GOFLAGS=-mod=mod GOPROXY=off GOSUMDB=off GOTOOLCHAIN=local
 ID=$1; L=$2; shift 2
 CHECKS=${@:-$ID}
 n=$(echo $ID | tr 'C' 'c')
-OUT=/tmp/seed-$n-out
+OUT=/tmp/${SEED_PREFIX:-seed}-$n-out
 [ -f $OUT/$L.diff ] || { echo "no $OUT/$L.diff"; exit 3; }
 D=$(mktemp -d /tmp/sc.XXXXXX)
 git -C /repo worktree add -q --detach "$D/wt" HEAD || exit 3
@@ -38,7 +38,7 @@ for c in $CHECKS; do
 done
 res "caught_by:$caught"
 if [ "${SEED_KEEP:-1}" = 1 ] && [ $rc_build -eq 0 ] && [ $suite = ok ] && [ $rc_clean -eq 0 ] && [ $rc_mut -ne 0 ] && [ $rc_mut -ne -1 ]; then
-  S=/verif/seeded/$ID-$L; rm -rf $S; mkdir -p $S
+  S=/verif/seeded/$ID-${SEED_TAG:-}$L; rm -rf $S; mkdir -p $S
   cp $OUT/$L.diff $S/patch.diff; cp -r $OUT/${L}_demo $S/demo; cp $OUT/$L.meta.json $S/agent-meta.json 2>/dev/null
   python3 - "$S" "$ID" "$L" "$D/result.txt" <<'PY'
 import json,sys
